@@ -67,6 +67,16 @@ def panicDocumented (op : String) (args : Array String) : Bool :=
   | "Decimal.Payload_" | "api.Payload" => !isNaN
   | "api.Int" | "api.Rat" | "api.RatRoundTrip" | "Decimal.Int_" | "Decimal.Rat" => isNaN || isInf
   | "api.MustParse" | "MustParse" => true
+  -- fmt layer: the scanError panic of fmt.ScanState.SkipSpace passes through Decimal.Scan (package fmt
+  -- recovers it around the call of the Scan method and returns its error)
+  | "Decimal.Scan" => match (Codec.dec (args.getD 1 "") : Option ScanState) with
+    | some s => s.skipCore.2.isSome
+    | none => false
+  -- a State whose Width() is negative is outside what package fmt hands to a Formatter (a negative `*`
+  -- width becomes the minus flag); Decimal.Format then can panic in make([]byte, …) (fmtF, kernel level)
+  | "Decimal.Format" => match (Codec.dec (args.getD 1 "") : Option FmtState) with
+    | some f => match f.wid with | some w => decide (w < 0) | none => false
+    | none => false
   | _ => false
 
 partial def loop (tbl : Table) (spec : SpecTable) (h : IO.FS.Stream) (out : IO.FS.Stream) (st : Stats) : IO Stats := do
